@@ -422,6 +422,15 @@ func Eq(a, b *Term) *Term {
 		if refsDistinct(a, b) {
 			return False
 		}
+		if isConv(a) && b.Op == "int" {
+			return cmpBridge("=", a, b.V, false)
+		}
+		if isConv(b) && a.Op == "int" {
+			return cmpBridge("=", b, a.V, false)
+		}
+		if a.Op == b.Op && isConv(a) && a.Args[0].S == b.Args[0].S {
+			return Eq(a.Args[0], b.Args[0])
+		}
 	}
 	if a.S == BoolS {
 		if a == True {
@@ -606,6 +615,12 @@ func Le(a, b *Term) *Term {
 	if ba == bb {
 		return BoolT(ka.Cmp(kb) <= 0)
 	}
+	if isConv(a) && b.Op == "int" {
+		return cmpBridge("<=", a, b.V, false)
+	}
+	if isConv(b) && a.Op == "int" {
+		return cmpBridge("<=", b, a.V, true)
+	}
 	return P.intern(&Term{Op: "<=", Args: []*Term{a, b}, S: BoolS})
 }
 func Lt(a, b *Term) *Term {
@@ -613,6 +628,12 @@ func Lt(a, b *Term) *Term {
 	bb, kb := linView(b)
 	if ba == bb {
 		return BoolT(ka.Cmp(kb) < 0)
+	}
+	if isConv(a) && b.Op == "int" {
+		return cmpBridge("<", a, b.V, false)
+	}
+	if isConv(b) && a.Op == "int" {
+		return cmpBridge("<", b, a.V, true)
 	}
 	return P.intern(&Term{Op: "<", Args: []*Term{a, b}, S: BoolS})
 }
@@ -818,20 +839,86 @@ func BV2Int(a *Term) *Term {
 	return P.intern(&Term{Op: "bv2nat", Args: []*Term{a}, S: IntS})
 }
 
-// BV2IntSigned: two's complement value.
+// BV2IntSigned: two's complement value (a distinct node so that mixed
+// Int/bit-vector comparisons with literals can be turned into pure bit-vector ones).
 func BV2IntSigned(a *Term) *Term {
 	w := a.S.W
 	if a.Op == "bv" {
 		return IntBig(toSigned(a.V, w))
 	}
-	u := BV2Int(a)
-	return Ite(BVCmp("bvslt", a, BVLit(0, w)), Sub(u, IntBig(new(big.Int).Lsh(big.NewInt(1), uint(w)))), u)
+	return P.intern(&Term{Op: "sbv2int", Args: []*Term{a}, S: IntS})
 }
+
+func litInSigned(v *big.Int, w int) bool {
+	lo := new(big.Int).Neg(new(big.Int).Lsh(big.NewInt(1), uint(w-1)))
+	hi := new(big.Int).Lsh(big.NewInt(1), uint(w-1))
+	return v.Cmp(lo) >= 0 && v.Cmp(hi) < 0
+}
+func litInUnsigned(v *big.Int, w int) bool {
+	return v.Sign() >= 0 && v.Cmp(new(big.Int).Lsh(big.NewInt(1), uint(w))) < 0
+}
+
+// cmpBridge: comparison of a converted bit-vector with an integer literal as a bit-vector comparison.
+// op is "=", "<=", "<" with the conversion on the left (flip=false) or right (flip=true).
+func cmpBridge(op string, conv *Term, lit *big.Int, flip bool) *Term {
+	x := conv.Args[0]
+	w := x.S.W
+	signed := conv.Op == "sbv2int"
+	in := litInUnsigned(lit, w)
+	if signed {
+		in = litInSigned(lit, w)
+	}
+	if !in {
+		// literal outside the representable range: the comparison is constant
+		below := lit.Sign() < 0
+		if signed {
+			below = lit.Cmp(big.NewInt(0)) < 0 && !litInSigned(lit, w)
+		}
+		switch op {
+		case "=":
+			return False
+		default:
+			// conv <= lit (or lit <= conv when flipped)
+			if !flip {
+				return BoolT(!below)
+			}
+			return BoolT(below)
+		}
+	}
+	l := BVBig(lit, w)
+	p := "bvu"
+	if signed {
+		p = "bvs"
+	}
+	switch op {
+	case "=":
+		return Eq(x, l)
+	case "<=":
+		if flip {
+			return BVCmp(p+"le", l, x)
+		}
+		return BVCmp(p+"le", x, l)
+	case "<":
+		if flip {
+			return BVCmp(p+"lt", l, x)
+		}
+		return BVCmp(p+"lt", x, l)
+	}
+	return nil
+}
+
+func isConv(t *Term) bool { return t.Op == "sbv2int" || t.Op == "bv2nat" }
 
 // Int2BV: value mod 2^w.
 func Int2BV(w int, a *Term) *Term {
 	if a.Op == "int" {
 		return BVBig(a.V, w)
+	}
+	if a.Op == "ite" {
+		return Ite(a.Args[0], Int2BV(w, a.Args[1]), Int2BV(w, a.Args[2]))
+	}
+	if base, k := linView(a); base != nil && isConv(base) && k.Sign() != 0 {
+		return BVOp("bvadd", Int2BV(w, base), BVBig(k, w))
 	}
 	if a.Op == "bv2nat" {
 		x := a.Args[0]
@@ -840,6 +927,16 @@ func Int2BV(w int, a *Term) *Term {
 		}
 		if x.S.W < w {
 			return ZeroExt(w-x.S.W, x)
+		}
+		return Extract(w-1, 0, x)
+	}
+	if a.Op == "sbv2int" {
+		x := a.Args[0]
+		if x.S.W == w {
+			return x
+		}
+		if x.S.W < w {
+			return SignExt(w-x.S.W, x)
 		}
 		return Extract(w-1, 0, x)
 	}
@@ -1034,6 +1131,8 @@ func rebuild(x *Term, a []*Term) *Term {
 		return BVNeg(a[0])
 	case "bv2nat":
 		return BV2Int(a[0])
+	case "sbv2int":
+		return BV2IntSigned(a[0])
 	case "int2bv":
 		return Int2BV(x.S.W, a[0])
 	case "extract":
@@ -1116,6 +1215,16 @@ func printTerm(sb *strings.Builder, t *Term, named map[int]string) {
 		sb.WriteString("(- ")
 		printTerm(sb, t.Args[0], named)
 		sb.WriteByte(')')
+	case "sbv2int":
+		// (ite (bvslt x 0) (- (bv2nat x) 2^w) (bv2nat x))
+		w := t.Args[0].S.W
+		sb.WriteString("(ite (bvslt ")
+		printTerm(sb, t.Args[0], named)
+		fmt.Fprintf(sb, " (_ bv0 %d)) (- (bv2nat ", w)
+		printTerm(sb, t.Args[0], named)
+		fmt.Fprintf(sb, ") %s) (bv2nat ", new(big.Int).Lsh(big.NewInt(1), uint(w)).String())
+		printTerm(sb, t.Args[0], named)
+		sb.WriteString("))")
 	case "extract", "zero_extend", "sign_extend", "int2bv", "constarr", "fp":
 		sb.WriteByte('(')
 		sb.WriteString(t.Name)
